@@ -125,6 +125,24 @@ func (a *aliasProg) needFunc(name string) {
 			}}},
 			gen.Return{Val: vr("ns", tArrN)},
 		}})
+	case "geterr": // returns the built-in global itself; fails or succeeds depending on the argument
+		a.fdefs = append(a.fdefs, gen.FuncDef{Name: name, Ret: tBool, Params: []gen.Param{{Name: "t", T: tStr}}, Body: []gen.Stmt{
+			gen.Decl{Name: "q", T: tNum, Init: call("str2num", tNum, vr("t", tStr))},
+			gen.If{Conds: []gen.Expr{gen.Binary{Op: "<", L: vr("q", tNum), R: nl(-999), T: tBool}}, Blocks: [][]gen.Stmt{{printCall(sl("never"))}}},
+			gen.Return{Val: vr("err", tBool)},
+		}})
+	case "getmsg":
+		a.fdefs = append(a.fdefs, gen.FuncDef{Name: name, Ret: tStr, Params: []gen.Param{{Name: "t", T: tStr}}, Body: []gen.Stmt{
+			gen.Decl{Name: "q", T: tBool, Init: call("str2bool", tBool, vr("t", tStr))},
+			gen.If{Conds: []gen.Expr{gen.Binary{Op: "and", L: vr("q", tBool), R: gen.Unary{Op: "!", X: vr("q", tBool)}, T: tBool}}, Blocks: [][]gen.Stmt{{printCall(sl("never"))}}},
+			gen.Return{Val: vr("errmsg", tStr)},
+		}})
+	case "report": // parameters are copies: a conversion inside must not change them
+		a.fdefs = append(a.fdefs, gen.FuncDef{Name: name, Ret: gen.TNone, Params: []gen.Param{{Name: "flag", T: tBool}, {Name: "msg", T: tStr}}, Body: []gen.Stmt{
+			printCall(sl("report before"), vr("flag", tBool), vr("msg", tStr)),
+			gen.Decl{Name: "q", T: tBool, Init: call("str2bool", tBool, sl("true"))},
+			printCall(sl("report after"), vr("flag", tBool), vr("msg", tStr), vr("q", tBool)),
+		}})
 	case "seterr": // a failing or succeeding conversion rewrites err/errmsg in place
 	}
 }
@@ -142,7 +160,7 @@ func (a *aliasProg) prelude() {
 	a.show()
 }
 
-const c09Creates = 27
+const c09Creates = 30
 const c09Updates = 14
 
 // create adds an alias-creating step of the given kind; returns false if not applicable.
@@ -304,6 +322,24 @@ func (a *aliasProg) create(kind int) bool {
 		name := a.fresh("f")
 		a.declare(name, tArrAN, gen.Binary{Op: "*", L: vr("nn", tArrAN), R: nl(2), T: tArrAN})
 		a.stmts = append(a.stmts, gen.Assign{Target: gen.Index{X: gen.Index{X: vr(name, tArrAN), I: nl(0), T: tArrN}, I: nl(0), T: tNum}, Val: nl(99)})
+	case 27: // results of functions that return err / errmsg, stored as literal elements
+		a.needFunc("geterr")
+		a.needFunc("getmsg")
+		tArrB := gen.ArrOf(tBool)
+		a.declare(a.fresh("eb"), tArrB, arrLit(tArrB, call("geterr", tBool, sl("1")), call("geterr", tBool, sl("x")), call("geterr", tBool, sl("2"))))
+		a.declare(a.fresh("em"), tArrS, arrLit(tArrS, call("getmsg", tStr, sl("nope")), call("getmsg", tStr, sl("true")), call("getmsg", tStr, sl("zz"))))
+	case 28: // ... passed as arguments to a function that runs a conversion itself
+		a.needFunc("geterr")
+		a.needFunc("getmsg")
+		a.needFunc("report")
+		a.stmts = append(a.stmts, gen.CallStmt{C: call("report", gen.TNone, call("geterr", tBool, sl("z")), call("getmsg", tStr, sl("z")))})
+	case 29: // ... as map values, any values and operands
+		a.needFunc("geterr")
+		a.needFunc("getmsg")
+		tMapB := gen.MapOf(tBool)
+		a.declare(a.fresh("mb"), tMapB, gen.MapLit{T: tMapB, Keys: []string{"p", "q"}, Vals: []gen.Expr{call("geterr", tBool, sl("bad")), call("geterr", tBool, sl("3"))}})
+		a.stmts = append(a.stmts, gen.Assign{Target: vr("xa", tArrA), Val: arrLit(tArrA, toAny(call("getmsg", tStr, sl("bad"))), toAny(call("geterr", tBool, sl("4"))), toAny(call("getmsg", tStr, sl("true"))))})
+		a.declare(a.fresh("cat"), tStr, gen.Binary{Op: "+", L: call("getmsg", tStr, sl("l")), R: call("getmsg", tStr, sl("true")), T: tStr})
 	case 24: // repetition of []any whose elements hold composites: deep copy reaches through any
 		arr, _ := a.pick(tArrN)
 		a.stmts = append(a.stmts, gen.Assign{Target: vr("xa", tArrA), Val: arrLit(tArrA, toAny(vr(arr.Name, tArrN)), toAny(vr("mn", tMapN)), toAny(vr("n", tNum)))})
